@@ -1,7 +1,8 @@
 """C01 — evaluation agrees with the Jsonnet language semantics.
 
 SPEC: coq/theories/Sem (reference call-by-need interpreter).  Theorems: coq/theories/C01
-(argument binding, scope lookup, call-style invariance).  Correspondence: type-directed
+(argument binding, scope lookup, call-style invariance; PropertiesOps.v: the operator dispatch of
+evaluate/operator.rs and val.rs, translated arm by arm into Gen/GenOps.v on every run, is the dispatch of Sem).  Correspondence: type-directed
 random programs (vlib/progen.py) evaluated by the real code in several configurations
 (2 parsers x positional/named call style x 4 embeddings) and by Sem inside Coq; every
 configuration must give Sem's JSON value, or an error exactly when Sem gives an error.
@@ -92,6 +93,67 @@ def operator_grid():
                 progs.append(("un", op, a))
     # results that are functions/objects-with-functions do not manifest: wrap in std.type where needed
     return [("arr", [("type", p), ("if", ("bin", "==", ("type", p), ("str", "function")), ("null",), p)]) for p in progs]
+
+
+OPS_IMPORTS = ("From Coq Require Import List ZArith NArith Bool.\n"
+               "From JrV Require Import Sem.Syntax Sem.Interp Common.OpClass Gen.GenOps C01.ModelOps.\nImport ListNotations.\n")
+OP_SYM = {v: k for k, v in g.BINOPS.items()}
+UN_SYM = {v: k for k, v in g.UNOPS.items()}
+
+
+def ops_values(t, empty=False, zero=False):
+    """a few operands of the variant t (the guard facts of the translated tables: empty string, zero)"""
+    S = lambda x: ("str", x)  # noqa
+    N = lambda z: ("num", z)  # noqa
+    return {"TNull": [("null",)], "TBool": [("bool", True), ("bool", False)],
+            "TNum": [N(0)] if zero else [N(3), N(-2)],
+            "TStr": [S("")] if empty else [S("a"), S("%d")],
+            "TArr": [("arr", []), ("arr", [N(1)])],
+            "TObj": [("obj", [], [], []), ("obj", [], [], [(S("a"), ":", False, N(1))])],
+            "TFunc": [("fun", [("q", None)], ("var", "q"))]}[t]
+
+
+def ops_tables(run, binary):
+    """Translated operator dispatch (Gen/GenOps.v, from evaluate/operator.rs + val.rs) against the tables of
+    the arms Sem takes (C01/ModelOps.v; proved to be Sem's dispatch in ProofsOps.v).  ModelOps.v holds only
+    definitions, so it computes even when a proof no longer checks: every differing cell is named in an
+    obligation and rendered into one-line programs that the real code and Sem are run on."""
+    r = core.coq_eval(OPS_IMPORTS, ["optable_cells", "unary_cells", "special_cells", "eqcmp_cells"], timeout=600)
+    if any(isinstance(x, tuple) and x and x[0] == "ERROR" for x in r):
+        run.obligation("C01.ops_tables(ModelOps computes)", False, str(r)[:400])
+        return []
+    cells, ucells, scells, ecells = r
+    run.count("ops:table_cells_differing", len(cells) + len(ucells) + len(scells) + len(ecells))
+    progs, names = [], []
+    for (o, ta, tb, (le, re_, rz), got, want) in cells:
+        names.append(f"{OP_SYM.get(o, o)} on ({ta}{' empty' if le else ''}, {tb}{' empty' if re_ else ''}{' zero' if rz else ''}): "
+                     f"source says {got!r}, Sem takes {want!r}")
+        if o in ("BAnd", "BOr"):
+            continue            # reachable only through the short-circuit arms: covered by special cells / the grid
+        for a in ops_values(ta, empty=le):
+            for b in ops_values(tb, empty=re_, zero=rz):
+                progs.append(("bin", OP_SYM[o], a, b))
+    for (o, t, got, want) in ucells:
+        names.append(f"unary {UN_SYM.get(o, o)} on {t}: source says {got!r}, Sem takes {want!r}")
+        progs += [("un", UN_SYM[o], a) for a in ops_values(t) + ops_values(t, True, True)]
+    for (o, t, bv, got, want) in scells:
+        names.append(f"{OP_SYM.get(o, o)} with left operand {t}/{bv}: source says {got!r}, Sem takes {want!r}")
+        lefts = [("bool", bv)] if t == "TBool" else ops_values(t)
+        for a in lefts:
+            progs += [("bin", OP_SYM[o], a, ("error", ("str", "right operand evaluated"))),
+                      ("bin", OP_SYM[o], a, ("bool", True)), ("bin", OP_SYM[o], a, ("bool", False))]
+    for (ta, tb, geq, seq, gcmp) in ecells:
+        names.append(f"equals / compare on ({ta}, {tb}): source says {geq!r} / {gcmp!r}, Sem's equals takes {seq!r}")
+        for a in ops_values(ta):
+            for b in ops_values(tb):
+                progs += [("bin", sym, a, b) for sym in ("==", "!=", "<", ">=")]
+    if not names:
+        return []
+    run.obligation("C01.C01_optable_actions_table / _unary_table / _short_circuit / _equals (translated dispatch = Sem's)",
+                   False, "; ".join(names)[:1500])
+    progs = [("arr", [("type", p), ("if", ("bin", "==", ("type", p), ("str", "function")), ("null",), p)]) for p in progs]
+    run.log(f"operator tables: {len(names)} differing cells, {len(progs)} targeted programs")
+    return correspond(run, binary, progs, light=len(progs)) if progs else []
 
 
 def generate(run, n):
@@ -275,7 +337,8 @@ def check(run, terrs):
         run.obligation("harness.build", False, err)
         return core.conclude(run, False, err, [], [])
     n = 12000 if run.tier == "thorough" else 1000
-    failures = correspond(run, binary, generate(run, n), light=len(operator_grid()))
+    failures = ops_tables(run, binary)
+    failures += correspond(run, binary, generate(run, n), light=len(operator_grid()))
     f2, diffs = argbind_correspond(run, binary)
     failures += f2
     run.trusted = TRUSTED
@@ -313,6 +376,8 @@ RULE = ("type-directed random programs (locals incl. shadowing and mutual refere
         "non-trivial = at least 6 AST nodes")
 TRUSTED = ["Coq 8.16.1 kernel incl. vm_compute", "Sem (coq/theories/Sem) is my formalisation of the Jsonnet "
            "operational semantics (numbers restricted to integers below 2^53; out-of-model cases skipped and counted)",
-           "jrharness eval + generators + Coq term parser"]
+           "jrharness eval + generators + Coq term parser",
+           "translator/gens/ops.py copies the arms of the operator `match` expressions it recognises (fails closed otherwise); "
+           "the meaning given to each body class (class_sem in C01/ModelOps.v) is my reading of the Rust bodies"]
 ASSUMPTIONS = ["the full evaluator is not transliterated: agreement with Sem beyond generated programs is not a theorem",
                "documented deviations excluded from generation: standalone super, str*num, erroring LHS of `in super`"]
